@@ -162,4 +162,24 @@ static sqfs_object_t *c19_obj_copy(const sqfs_object_t *b)
 	return (sqfs_object_t *)c;
 }
 
+/* Targets for function-pointer call sites that live in the same translation
+ * unit as the hooks but are not part of copy/destroy (read_at, do_block ...):
+ * the harness never reaches them; if it did, that is reported. */
+#include "sqfs/io.h"
+#include "sqfs/compressor.h"
+int c19_unreachable_read_at(sqfs_file_t *f, sqfs_u64 off, void *buf, size_t n)
+{
+	(void)f; (void)off; (void)buf; (void)n;
+	VERIF_ASSERT(0, C19_OB("env.no_io_during_copy"));
+	return -1;
+}
+
+sqfs_s32 c19_unreachable_do_block(sqfs_compressor_t *c, const sqfs_u8 *in,
+					 sqfs_u32 n, sqfs_u8 *out, sqfs_u32 m)
+{
+	(void)c; (void)in; (void)n; (void)out; (void)m;
+	VERIF_ASSERT(0, C19_OB("env.no_io_during_copy"));
+	return -1;
+}
+
 #endif /* C19_ENV_H */
